@@ -180,7 +180,9 @@ impl Worker {
 
     pub fn is_free(&self) -> bool {
         (match &self.assignment {
-            WorkerAssignment::Sn(a) => a.assigned_tasks.is_empty(),
+            // Tasks that were pre-sent to the worker (prefilled) also count, the worker may
+            // start them any time
+            WorkerAssignment::Sn(a) => a.assigned_tasks.is_empty() && a.prefilled_tasks.is_empty(),
             WorkerAssignment::Mn(_a) => false,
         }) && !self.is_stopping()
     }
